@@ -14,7 +14,9 @@
 
    The hook of the run either forwards every call to the client it was given and marks the result (fwd = TRUE),
    or answers by itself (fwd = FALSE).  Properties: ExactlyOneHookCall, ResultUnchanged, UnderlyingAtMostOnce,
-   PassThroughUntouched.  BugBypass re-introduces a path that skips the hook (negative configs).            *)
+   PassThroughUntouched;
+   round 2: stacked hooks (Layers), the state of the caller's context at each call (CtxStates: the wrapper must hand the
+   caller exactly what the hook returned whatever the context says).  BugBypass re-introduces a path that skips the hook (negative configs).            *)
 EXTENDS Integers, Sequences, FiniteSets, TLC, Json
 
 CONSTANTS NodeIds,      \* addresses in the map returned by Nodes()
@@ -24,17 +26,22 @@ CONSTANTS NodeIds,      \* addresses in the map returned by Nodes()
           MaxCalls,     \* bound on Call operations in a program
           FwdModes,     \* subset of BOOLEAN: hook behaviours explored
           BugBypass,    \* set of <<kind, entry>> pairs routed around the hook (the code as it is: {})
-          BugRewrap     \* TRUE: Nodes() hands out the underlying clients unwrapped (the code as it is: FALSE)
+          BugRewrap,    \* TRUE: Nodes() hands out the underlying clients unwrapped (the code as it is: FALSE)
+          Layers,       \* round 2: numbers of stacked hooks explored: WithHook(... WithHook(c, h1) ..., hk), hook k outermost
+          CtxStates,    \* round 2: states of the caller's context at a call: subset of {"live", "cancelled", "expired"}
+          BugStackCollapse,  \* TRUE: WithHook of an already hooked client returns that client (outer hooks never run)
+          BugCtxOverride     \* TRUE: Receive replaces the hook's result by ctx.Err() when the caller's context is done
 
 VARIABLES live,         \* handles the program may use
           raw,          \* handles that are NOT wrapped (only non-empty with BugRewrap)
           scopes,       \* stack of dedicated handles whose Dedicated(fn) callback is running
           cancelable,   \* dedicated handles obtained from Dedicate() whose cancel() was not called yet
           nextD, nops, ncalls, fwd,
+          layers,       \* number of stacked hooks of the run (every hook forwards-and-marks resp. answers itself, as fwd says)
           last,         \* outcome of the last operation
           prog          \* history: the program so far with the predicted outcome of every operation
 
-vars == <<live, raw, scopes, cancelable, nextD, nops, ncalls, fwd, last, prog>>
+vars == <<live, raw, scopes, cancelable, nextD, nops, ncalls, fwd, layers, last, prog>>
 
 ClientHooked == {"Do", "DoMulti", "DoCache", "DoMultiCache", "Receive", "DoStream", "DoMultiStream"}
 ClientPass   == {"B", "Mode", "Close"}
@@ -47,71 +54,80 @@ Depth(h) == Cardinality({i \in 1..Len(h) : h[i][1] = "n"})
 Entries(h) == IF IsClient(h) THEN ClientHooked \cup ClientPass ELSE DedHooked \cup DedPass
 Hooked(h, e) == IF IsClient(h) THEN e \in ClientHooked ELSE e \in DedHooked
 
-NoOutcome == [op |-> "none", h |-> <<>>, e |-> "", hook |-> <<>>, under |-> <<>>, ret |-> "", made |-> {}]
+NoOutcome == [op |-> "none", h |-> <<>>, e |-> "", cx |-> "", hook |-> <<>>, under |-> <<>>, ret |-> "", made |-> {}]
 
 Init == /\ live = {<<>>} /\ raw = {} /\ scopes = <<>> /\ cancelable = {} /\ nextD = 1 /\ nops = 0 /\ ncalls = 0
-        /\ fwd \in FwdModes /\ last = NoOutcome /\ prog = <<>>
+        /\ fwd \in FwdModes /\ layers \in Layers /\ last = NoOutcome /\ prog = <<>>
 
 Record(o) == /\ last' = o /\ prog' = Append(prog, o) /\ nops' = nops + 1
 
 \* one request through handle h.  hook = calls of Hook methods <<entry, client given to the hook>>,
 \* under = calls that reached the underlying client, ret = what the caller gets back
-Call(h, e) ==
-  /\ nops < MaxOps /\ ncalls < MaxCalls /\ h \in live /\ e \in Entries(h)
+\* hook invocations of one hooked call, outermost hook first: hook k is handed the wrapper of hook k-1 (which leads
+\* to the same underlying client, hence the same path), hook 1 the underlying client itself.  A hook that answers by
+\* itself ends the chain.  "L<k>:" tags the layer.
+LayerTag(k) == "L" \o ToString(k) \o ":"
+EffLayers == IF BugStackCollapse THEN 1 ELSE layers
+HookChain(e, h) == IF fwd THEN [j \in 1..EffLayers |-> <<LayerTag(layers + 1 - j) \o e, h>>]
+                   ELSE << <<LayerTag(IF BugStackCollapse THEN 1 ELSE layers) \o e, h>> >>
+\* the wrapper never looks at the caller's context: what the caller gets is what the outermost hook returned
+Call(h, e, cx) ==
+  /\ nops < MaxOps /\ ncalls < MaxCalls /\ h \in live /\ e \in Entries(h) /\ cx \in CtxStates
   /\ ncalls' = ncalls + 1
   /\ LET bypass == h \in raw \/ <<Kind(h), e>> \in BugBypass
          o == IF Hooked(h, e) /\ ~bypass
-                THEN [op |-> "Call", h |-> h, e |-> e, hook |-> << <<e, h>> >>,
+                THEN [op |-> "Call", h |-> h, e |-> e, cx |-> cx, hook |-> HookChain(e, h),
                       under |-> IF fwd THEN << <<e, h>> >> ELSE <<>>,
-                      ret |-> IF fwd THEN "marked" ELSE "own", made |-> {}]
-                ELSE [op |-> "Call", h |-> h, e |-> e, hook |-> <<>>, under |-> << <<e, h>> >>, ret |-> "raw", made |-> {}]
+                      ret |-> IF BugCtxOverride /\ e = "Receive" /\ cx # "live" THEN "ctxerr" ELSE IF fwd THEN "marked" ELSE "own",
+                      made |-> {}]
+                ELSE [op |-> "Call", h |-> h, e |-> e, cx |-> cx, hook |-> <<>>, under |-> << <<e, h>> >>, ret |-> "raw", made |-> {}]
      IN Record(o)
-  /\ UNCHANGED <<live, raw, scopes, cancelable, nextD, fwd>>
+  /\ UNCHANGED <<live, raw, scopes, cancelable, nextD, fwd, layers>>
 
 Nodes(h) ==
   /\ nops < MaxOps /\ h \in live /\ IsClient(h) /\ Depth(h) < MaxDepth
   /\ LET kids == {Append(h, <<"n", i>>) : i \in NodeIds}
      IN /\ live' = live \cup kids
         /\ raw' = IF BugRewrap \/ h \in raw THEN raw \cup kids ELSE raw
-        /\ Record([op |-> "Nodes", h |-> h, e |-> "", hook |-> <<>>, under |-> << <<"Nodes", h>> >>, ret |-> "", made |-> kids])
-  /\ UNCHANGED <<scopes, cancelable, nextD, ncalls, fwd>>
+        /\ Record([op |-> "Nodes", h |-> h, e |-> "", cx |-> "", hook |-> <<>>, under |-> << <<"Nodes", h>> >>, ret |-> "", made |-> kids])
+  /\ UNCHANGED <<scopes, cancelable, nextD, ncalls, fwd, layers>>
 
 Dedicate(h) ==
   /\ nops < MaxOps /\ h \in live /\ IsClient(h) /\ nextD <= MaxDed
   /\ LET d == Append(h, <<"d", nextD>>)
      IN /\ live' = live \cup {d} /\ cancelable' = cancelable \cup {d}
         /\ raw' = IF h \in raw THEN raw \cup {d} ELSE raw
-        /\ Record([op |-> "Dedicate", h |-> h, e |-> "", hook |-> <<>>, under |-> << <<"Dedicate", h>> >>, ret |-> "", made |-> {d}])
-  /\ nextD' = nextD + 1 /\ UNCHANGED <<scopes, ncalls, fwd>>
+        /\ Record([op |-> "Dedicate", h |-> h, e |-> "", cx |-> "", hook |-> <<>>, under |-> << <<"Dedicate", h>> >>, ret |-> "", made |-> {d}])
+  /\ nextD' = nextD + 1 /\ UNCHANGED <<scopes, ncalls, fwd, layers>>
 
 \* cancel() of a Dedicate(): the underlying cancel runs; the handle stays usable as an object (calls on it are
 \* still routed the same way), so it stays in live
 Cancel(d) ==
   /\ nops < MaxOps /\ d \in cancelable
   /\ cancelable' = cancelable \ {d}
-  /\ Record([op |-> "Cancel", h |-> d, e |-> "", hook |-> <<>>, under |-> << <<"cancel", d>> >>, ret |-> "", made |-> {}])
-  /\ UNCHANGED <<live, raw, scopes, nextD, ncalls, fwd>>
+  /\ Record([op |-> "Cancel", h |-> d, e |-> "", cx |-> "", hook |-> <<>>, under |-> << <<"cancel", d>> >>, ret |-> "", made |-> {}])
+  /\ UNCHANGED <<live, raw, scopes, nextD, ncalls, fwd, layers>>
 
 Begin(h) ==
   /\ nops < MaxOps - 1 /\ h \in live /\ IsClient(h) /\ nextD <= MaxDed /\ Len(scopes) < 2
   /\ LET d == Append(h, <<"d", nextD>>)
      IN /\ live' = live \cup {d} /\ scopes' = Append(scopes, d)
         /\ raw' = IF h \in raw THEN raw \cup {d} ELSE raw
-        /\ Record([op |-> "Begin", h |-> h, e |-> "", hook |-> <<>>, under |-> << <<"Dedicated", h>> >>, ret |-> "", made |-> {d}])
-  /\ nextD' = nextD + 1 /\ UNCHANGED <<cancelable, ncalls, fwd>>
+        /\ Record([op |-> "Begin", h |-> h, e |-> "", cx |-> "", hook |-> <<>>, under |-> << <<"Dedicated", h>> >>, ret |-> "", made |-> {d}])
+  /\ nextD' = nextD + 1 /\ UNCHANGED <<cancelable, ncalls, fwd, layers>>
 
 \* the callback returns an error value; Dedicated(fn) must return exactly that value
 End ==
   /\ scopes # <<>> /\ nops < MaxOps
   /\ LET d == scopes[Len(scopes)]
      IN /\ scopes' = SubSeq(scopes, 1, Len(scopes) - 1)
-        /\ Record([op |-> "End", h |-> d, e |-> "", hook |-> <<>>, under |-> <<>>, ret |-> "fnerr", made |-> {}])
-  /\ UNCHANGED <<live, raw, cancelable, nextD, ncalls, fwd>>
+        /\ Record([op |-> "End", h |-> d, e |-> "", cx |-> "", hook |-> <<>>, under |-> <<>>, ret |-> "fnerr", made |-> {}])
+  /\ UNCHANGED <<live, raw, cancelable, nextD, ncalls, fwd, layers>>
 
 \* a program must be able to close its scopes
 Room == MaxOps - nops > Len(scopes)
 
-Next == \/ (Room /\ \E h \in live : \E e \in Entries(h) : Call(h, e))
+Next == \/ (Room /\ \E h \in live : \E e \in Entries(h) : \E cx \in CtxStates : Call(h, e, cx))
         \/ (Room /\ \E h \in live : Nodes(h) \/ Dedicate(h) \/ Begin(h))
         \/ (Room /\ \E d \in cancelable : Cancel(d))
         \/ End
@@ -119,14 +135,17 @@ Next == \/ (Room /\ \E h \in live : \E e \in Entries(h) : Call(h, e))
 Spec == Init /\ [][Next]_vars
 
 \* ------------------------------------------------------------------------------------------------ properties
-TypeOK == /\ nextD \in 1..(MaxDed + 1) /\ nops \in 0..MaxOps /\ fwd \in BOOLEAN
+TypeOK == /\ nextD \in 1..(MaxDed + 1) /\ nops \in 0..MaxOps /\ fwd \in BOOLEAN /\ layers \in Layers
           /\ \A h \in live : Len(h) <= MaxDepth + 1 /\ Depth(h) <= MaxDepth
 
 IsCall(o) == o.op = "Call" /\ Hooked(o.h, o.e)
 
 \* every request entry point of the wrapped client and of every client derived from it goes through the hook
 \* exactly once, and the hook is handed the underlying client of that very handle
-ExactlyOneHookCall == IsCall(last) => last.hook = << <<last.e, last.h>> >>
+\* (stacked hooks: every hook of the stack that is reached exactly once, outermost first, each with the same target)
+ExactlyOneHookCall == IsCall(last) =>
+                        /\ Len(last.hook) = (IF fwd THEN layers ELSE 1)
+                        /\ \A j \in 1..Len(last.hook) : last.hook[j] = <<LayerTag(layers + 1 - j) \o last.e, last.h>>
 \* the caller receives what the hook returned
 ResultUnchanged == IsCall(last) => last.ret = (IF fwd THEN "marked" ELSE "own")
 \* the wrapper itself never calls the underlying client: it is reached only through the hook
@@ -142,10 +161,10 @@ BypassDedReceive == {<<"ded", "Receive">>}
 BypassNodeMultiStream == {<<"node", "DoMultiStream">>}
 
 \* ------------------------------------------------------------------------------------------------ generation
-McView == <<live, raw, scopes, cancelable, nextD, nops, ncalls, fwd, last>>
+McView == <<live, raw, scopes, cancelable, nextD, nops, ncalls, fwd, layers, last>>
 Complete == scopes = <<>> /\ (nops = MaxOps \/ ncalls = MaxCalls)
 \* every complete program once (prog is part of the state in generation configs)
-Emit == Complete => PrintT(<<"CASE", ToJson([fwd |-> fwd, ops |-> prog])>>)
+Emit == Complete => PrintT(<<"CASE", ToJson([fwd |-> fwd, layers |-> layers, ops |-> prog])>>)
 \* for -simulate: stop a behaviour at its first complete program of full length
-EmitSim == (scopes = <<>> /\ nops = MaxOps) => PrintT(<<"CASE", ToJson([fwd |-> fwd, ops |-> prog])>>)
+EmitSim == (scopes = <<>> /\ nops = MaxOps) => PrintT(<<"CASE", ToJson([fwd |-> fwd, layers |-> layers, ops |-> prog])>>)
 =============================================================================
